@@ -349,6 +349,51 @@ def site_key(fn, kind, exprs):
     return "%s|%s(%s)" % (fn.name, kind, ", ".join(fmt(strip_widen(e)) for e in exprs))[:300]
 
 
+INVARIANT_PAIRS = {frozenset(("left", "width")), frozenset(("top", "height"))}
+INVARIANT_TYPES = ("TypedCroppedImage", "CroppedImage")
+
+
+def _self_field(fn, e):
+    """name of a field of `self` (or of the getter that returns it), else None"""
+    e = strip_widen(e)
+    if e[0] == "field" and e[1][0] == "param" and fn.local_name(e[1][1]) == "self" \
+            and isinstance(e[2], str):
+        return e[2]
+    if e[0] == "call" and e[1] in ("width", "height") and e[2] and e[2][0][0] == "param" \
+            and fn.local_name(e[2][0][1]) == "self":
+        return e[1]
+    return None
+
+
+def symbolic_upper_bounds(fn, nf, e, depth=0):
+    """expressions known to be >= e: e itself, right-hand sides of guards e <= X, and the
+    minuend of an unsigned subtraction"""
+    out = [strip_widen(e)]
+    if depth > 2:
+        return out
+    s = strip_widen(e)
+    if s[0] == "bin" and s[1] == "Sub":
+        out.extend(symbolic_upper_bounds(fn, nf, s[2], depth + 1))
+    for (op, x, y) in nf:
+        for (o, l, r) in ((op, x, y), (FLIP[op], y, x)):
+            if o in ("Le", "Lt") and same(l, e):
+                out.extend(symbolic_upper_bounds(fn, nf, r, depth + 1))
+    return out
+
+
+def upper_bounds_pair(ctx, fn, nf, a, b):
+    st = fn.d.get("self_ty", "")
+    if not any(t in st for t in INVARIANT_TYPES):
+        return None
+    ua = [_self_field(fn, x) for x in symbolic_upper_bounds(fn, nf, a)]
+    ub = [_self_field(fn, x) for x in symbolic_upper_bounds(fn, nf, b)]
+    for x in ua:
+        for y in ub:
+            if x and y and frozenset((x, y)) in INVARIANT_PAIRS:
+                return (x, y, "%s <= self.%s, %s <= self.%s" % (fmt(a)[:30], x, fmt(b)[:30], y))
+    return None
+
+
 def decide_arith(ctx, ob, freedom):
     """returns (verdict, detail) for one overflow / division obligation"""
     sym, iv = ctx.sym, ctx.iv
@@ -497,6 +542,12 @@ def decide_arith(ctx, ob, freedom):
                 "controlled argument / object state) and no guard relates them" % (
                     fmt(a), fmt(b), ob.ty)
         return "UNDECIDED", "%s - %s" % (fmt(a), fmt(b))
+    if op == "Add" and ob.ty == "u32":
+        # type invariant of the cropped views (established at construction, C04.constructors):
+        # left + width <= inner.width() <= u32::MAX and top + height <= inner.height()
+        inv = upper_bounds_pair(ctx, fn, nf, a, b)
+        if inv:
+            return "DISCHARGED", "type invariant %s + %s <= u32::MAX with %s" % inv
     if op in ("Add", "Mul") and ra is not None and rb is not None and ctx.iv.param_info:
         # operands whose extremes are attained independently: pixel data vs. a table entry
         def attained(e):
